@@ -74,6 +74,8 @@ func pdrBox(p *rPDR, pfd map[string][]string) refBox {
 			b.strict, b.why = false, "protocol 0/255"
 		case rem.HasPort && rem.Lo == 0 && rem.Hi == 0:
 			b.strict, b.why = false, "port 0"
+		case rem.HasPort && rem.Hi-rem.Lo >= 100 && !(rem.Lo == 0 && rem.Hi == 65535):
+			b.strict, b.why = false, "range wider than the Exact strategy expands (refused after acceptance; C17's)"
 		default:
 			if rf.Proto >= 0 {
 				b.v[fbProto], b.m[fbProto] = uint64(rf.Proto), 0xFF
